@@ -117,6 +117,7 @@ class World:
         self.root_kids = []     # committed children of root
         self.serial = {}        # name -> tid of last write
         self.pend = None        # pending view: dict(committed), root_kids, touched set, added set
+        self.last_state = {}    # name -> (v, kids) as the PROGRAM last left the python object
         self.begin()
 
     # ---- model helpers
@@ -166,6 +167,7 @@ class World:
             parent = 'root'
         o = KINDS[len(self.objs) % 3](len(self.objs) + 1)
         self.objs[name] = o
+        self.last_state[name] = (o.v, [])
         self.pend['state'][name] = {'v': o.v, 'kids': []}
         if explicit:
             self.conn.add(o)
@@ -183,6 +185,7 @@ class World:
         else:
             self.objs[parent].add_kid(o)
             self.pend['state'][parent]['kids'].append(name)
+            self.last_state[parent] = (self.last_state[parent][0], self.last_state[parent][1] + [name])
             self.pend['touched'].add(parent)
 
     def unlink(self, parent, name):
@@ -198,12 +201,15 @@ class World:
                 p.del_kid(o)
                 self.pend['state'][parent]['kids'] = [n for n in self.pend['state'][parent]['kids']
                                                       if n != name]
+                self.last_state[parent] = (self.last_state[parent][0],
+                                           [n for n in self.last_state[parent][1] if n != name])
                 self.pend['touched'].add(parent)
 
     def modify(self, name):
         o = self.objs[name]
         o.v = o.v + 100
         self.pend['state'][name]['v'] = o.v
+        self.last_state[name] = (o.v, self.last_state[name][1])
         self.pend['touched'].add(name)
 
 
@@ -231,6 +237,16 @@ def check_objects(w, label, after_boundary):
                 return '%s: object %s lost its connection' % (label, name)
         if (o._p_oid is None) != (o._p_jar is None):
             return '%s: object %s has _p_oid %r but _p_jar %r' % (label, name, o._p_oid, o._p_jar)
+        if not owned and name in w.last_state:
+            # an object that belongs to no database has no committed state to go back to: it must
+            # still carry the state the program gave it ("can be added again later")
+            try:
+                got = (o.v, [w.name_of(k) for k in o.kids])
+            except Exception as e:  # noqa
+                got = '%s: %s' % (type(e).__name__, e)
+            if got != w.last_state[name]:
+                return '%s: object %s belongs to no database and has lost its state: %r, the program ' \
+                       'left it as %r' % (label, name, got, w.last_state[name])
         if after_boundary:
             if o._p_changed:
                 return '%s: object %s still marked changed outside a transaction' % (label, name)
